@@ -1009,6 +1009,10 @@ def install(eng):
         st.assume(z3.If(v == 0, z3.And(m == 0, e == 0),
                         z3.And(z3.Or(z3.And(m >= z3.Q(1, 2), m < 1), z3.And(m <= -z3.Q(1, 2), m > -1)),
                                v == m * ops.pow2_real(e))))
+        # consequences of the line above, stated linearly in v and 2**e so that the solver need not multiply
+        p2 = ops.pow2_real(e)
+        st.assume(z3.Implies(v > 0, z3.And(p2 / 2 <= v, v < p2)))
+        st.assume(z3.Implies(v < 0, z3.And(-p2 < v, v <= -p2 / 2)))
         eng.assumptions_used.add('math.frexp(v) = (m, e) with v = m * 2**e, 0.5 <= |m| < 1 (or (0, 0)), exact for finite v')
         return one(st, Tup([m, e]))
 
